@@ -400,3 +400,267 @@ _swap_rule('R01.k', ('C01', 'C12'), ('bardolph.vm', 'bardolph.controller'),
            'VM and controller', 40)
 _swap_rule('R20.g', ('C20', 'C08'), ('web', 'bardolph.lib.job_control'),
            'web tier and job control', 10)
+
+
+SCRIPTJOB = 'bardolph.controller.script_job'
+WEBAPP = 'web.web_app'
+FRONT = 'web.front_end'
+VMIO = 'bardolph.vm.vm_io'
+VMDISC = 'bardolph.vm.vm_discover'
+LOOP = 'bardolph.parser.loop_parser'
+
+
+@rule('R20.h', ('C20', 'C06'), 'a script that compiles is the script that runs: '
+      'the loaders keep the compiled program', floor=4,
+      decides='a request for path p starts the script the manifest lists for '
+              'p (the job built from a file holds that file\'s program)')
+def r20h(R):
+    A = R.A
+    for lname, parse_name in (('ScriptJob.load_file', 'Parser.parse_file'),
+                              ('ScriptJob.load_string', 'Parser.parse')):
+        f = A.func(SCRIPTJOB, lname)
+        cfg = A.cfg(f)
+        tests = [n for n in cfg.nodes if n.kind == 'cond' and any(
+            parse_name in A.callee_names(f, c) for c in n.calls())]
+        stores = [n for n in cfg.nodes if n.kind == 'stmt'
+                  and isinstance(n.ast, ast.Assign)
+                  and any(self_attr(t) == '_program' for t in n.ast.targets)
+                  and isinstance(n.ast.value, ast.Call)
+                  and 'Parser.get_program' in A.callee_names(f, n.ast.value)]
+        ok = bool(tests and stores)
+        p = None
+        if ok:
+            starts = [m for t in tests for m, lab in t.succs if lab is True]
+            p = cfg.find_path(starts, lambda n: n is cfg.exit, avoid=stores)
+            ok = p is None
+        R.check(f, '%s: parsed -> self._program = parser.get_program()' % lname,
+                ok, '%s can succeed in compiling and not keep the program: the '
+                'job runs nothing (or what it held before)' % lname,
+                path=path_text(p) if p else None)
+    for cname, lname in (('ScriptJob.from_file', 'ScriptJob.load_file'),
+                         ('ScriptJob.from_string', 'ScriptJob.load_string')):
+        f = A.func(SCRIPTJOB, cname)
+        cfg = A.cfg(f)
+        loads = A.calls_nodes(f, lname)
+        p = cfg.find_path([cfg.entry], lambda n: n is cfg.exit, avoid=loads) \
+            if loads else []
+        R.check(f, '%s -> %s' % (cname, lname), bool(loads) and p is None,
+                '%s returns a job that was never given its script' % cname)
+
+
+@rule('R20.i', ('C20', 'C09'), 'every route performs its action on the '
+      'application object', floor=6,
+      decides='stop, stop-current, stop-all, off, capture and a script\'s own '
+              'path do what they say')
+def r20i(R):
+    A = R.A
+    routes = (('FrontEnd.stop_script', 'WebApp.stop_script', True),
+              ('FrontEnd.stop_current', 'WebApp.stop_current', False),
+              ('FrontEnd.stop_all', 'WebApp.stop_all', False),
+              ('FrontEnd.off', 'WebApp.stop_current', False),
+              ('FrontEnd.capture', 'WebApp.snapshot', False),
+              ('FrontEnd.run_script', 'WebApp.queue_script', True))
+    for hname, action, conditional in routes:
+        h = A.func(FRONT, hname)
+        cfg = A.cfg(h)
+        acts = A.calls_nodes(h, action)
+        ok = bool(acts)
+        p = None
+        if ok and not conditional:
+            p = cfg.find_path([cfg.entry], lambda n: n is cfg.exit, avoid=acts)
+            ok = p is None
+        if ok and conditional:
+            # on the paths that render the action page the action was taken
+            # (or the script was found running already)
+            render = A.calls_nodes(h, 'FrontEnd.render_action')
+            running = [n for n in cfg.nodes if n.kind == 'cond'
+                       and norm(n.ast).endswith('.running')]
+            skip = [] if hname.endswith('stop_script') else \
+                [m for n in running for m, lab in n.succs if lab is True]
+            p = cfg.find_path([cfg.entry], lambda n: n in render,
+                              avoid=acts + [n for n in skip if n not in render])
+            if hname.endswith('stop_script'):
+                ok = p is None
+            else:
+                # run_script: rendered "Started" only if running or queued
+                q = cfg.find_path([cfg.entry], lambda n: n in render,
+                                  avoid=acts + running)
+                ok = q is None
+        R.check(h, '%s -> %s' % (hname, action), ok,
+                'the route answers as if the action had been taken although '
+                '%s was not called' % action, path=path_text(p) if p else None)
+
+
+@rule('R20.j', ('C20',), 'the application knows every manifest entry and '
+      'reports for each whether it is running', floor=3,
+      decides='a script reported as running is not started a second time; '
+              'only manifest-listed files can be started')
+def r20j(R):
+    A = R.A
+    wa = A.cls(WEBAPP, 'WebApp')
+    init = wa.methods['__init__']
+    cfg = A.cfg(init)
+    loads = A.calls_nodes(init, 'WebApp._load_manifest')
+    p = cfg.find_path([cfg.entry], lambda n: n is cfg.exit, avoid=loads) if loads else []
+    R.check(init, 'WebApp.__init__ loads the manifest', bool(loads) and p is None,
+            'the application is built without its manifest: no script can be '
+            'started')
+    for mname in ('get_script_control', 'get_script_list'):
+        m = wa.methods[mname]
+        mcfg = A.cfg(m)
+        sets = [n for n in mcfg.nodes if n.kind == 'stmt'
+                and isinstance(n.ast, ast.Assign)
+                and any(isinstance(t, ast.Attribute) and t.attr == 'running'
+                        for t in n.ast.targets)
+                and isinstance(n.ast.value, ast.Call)
+                and 'JobControl.is_running' in A.callee_names(m, n.ast.value)]
+        ok = bool(sets)
+        p = None
+        if ok and mname == 'get_script_control':
+            # every non-None answer carries the running state
+            rets = [r for r in mcfg.return_nodes()]
+            found = [t for t in mcfg.nodes if t.kind == 'cond'
+                     and A.canonical_atom(t.ast)[0].endswith(' is None')]
+            starts = [x for t in found for x, lab in t.succs
+                      if lab is not A.canonical_atom(t.ast)[1]]
+            p = mcfg.find_path(starts, lambda n: n in rets, avoid=sets)
+            ok = bool(found) and p is None
+        if ok and mname == 'get_script_list':
+            loops = [n for n in mcfg.nodes if n.kind == 'for']
+            ok = bool(loops)
+            if ok:
+                lp = loops[0]
+                body = [x for x, lab in lp.succs if lab is True]
+                appends = [n for n in mcfg.nodes for c in n.calls()
+                           if isinstance(c.func, ast.Attribute) and c.func.attr == 'append']
+                ok = bool(appends) and \
+                    mcfg.find_path(body, lambda n: n is lp, avoid=sets) is None and \
+                    mcfg.find_path(body, lambda n: n is lp, avoid=appends) is None \
+                    and '_scripts' in norm(lp.ast.iter)
+        R.check(m, '%s: running = jobs.is_running(<entry>.path) for every entry'
+                % mname, ok,
+                '%s hands out a script entry without its running state (or '
+                'drops entries): a running script is started again by a '
+                'repeated request, or is missing from the page' % mname,
+                path=path_text(p) if p else None)
+
+
+@rule('R19.g', ('C19', 'C17'), 'flush writes what is still pending and flushes '
+      'the sink', floor=2,
+      decides='output has all been written when the script ends')
+def r19g(R):
+    A = R.A
+    fl = A.func(VMIO, 'VmIo.flush')
+    cfg = A.cfg(fl)
+    loops = [n for n in cfg.nodes if n.kind == 'for'
+             and '_unnamed' in norm(n.ast.iter)]
+    outs = [n for n in cfg.nodes for c in n.calls()
+            if isinstance(c.func, ast.Attribute) and c.func.attr == 'out']
+    ok = bool(loops and outs)
+    if ok:
+        lp = loops[0]
+        body = [x for x, lab in lp.succs if lab is True]
+        ok = cfg.find_path(body, lambda n: n is lp, avoid=outs) is None and \
+            all(norm(c.args[0]) == norm(lp.ast.target) for n in outs
+                for c in n.calls() if isinstance(c.func, ast.Attribute)
+                and c.func.attr == 'out' and c.args)
+    R.check(fl, 'every pending value is written', ok,
+            'values still pending when the run ends are dropped')
+    sink_flush = [n for n in cfg.nodes for c in n.calls()
+                  if isinstance(c.func, ast.Attribute) and c.func.attr == 'flush'
+                  and not self_attr(c.func.value)]
+    p = cfg.find_path([cfg.entry], lambda n: n is cfg.exit, avoid=sink_flush) \
+        if sink_flush else []
+    R.check(fl, 'the sink is flushed', bool(sink_flush) and p is None,
+            'the output sink is not flushed at the end of a run: an '
+            'unterminated line stays pending')
+
+
+@rule('R04.i', ('C04', 'C12'), 'the iteration instructions always answer: a '
+      'name, or NULL at the end / for an empty population', floor=4,
+      decides='a light-iterating loop binds each name once and ends; over an '
+              'empty population its body does not run')
+def r04i(R):
+    A = R.A
+    vd = A.cls(VMDISC, 'VmDiscover')
+    for mname in ('disc', 'discm', 'dnext', 'dnextm'):
+        m = vd.methods[mname]
+        cfg = A.cfg(m)
+        stores = [n for n in cfg.nodes if n.kind == 'stmt'
+                  and isinstance(n.ast, ast.Assign)
+                  and any(isinstance(t, ast.Attribute) and t.attr == 'result'
+                          for t in n.ast.targets)]
+        p = cfg.find_path([cfg.entry], lambda n: n is cfg.exit, avoid=stores) \
+            if stores else []
+        R.check(m, '%s sets the result register on every path' % mname,
+                bool(stores) and p is None,
+                '%s can return without setting the result register: the loop '
+                'sees the result of an unrelated earlier instruction (its body '
+                'runs with a stale name, or never ends)' % mname,
+                path=path_text(p) if p else None)
+    # an empty list is recognised before it is indexed
+    for mname in ('disc', 'discm'):
+        m = vd.methods[mname]
+        cfg = A.cfg(m)
+        idx = [n for n in cfg.nodes if any(
+            isinstance(x, ast.Subscript) and isinstance(x.ctx, ast.Load)
+            and isinstance(x.value, ast.Name) for e in n.exprs() for x in ast.walk(e))]
+        ok = bool(idx)
+        for n in idx:
+            facts = A.path_facts(m, n)
+            nonempty = any(
+                (text.startswith('0 == len(') and truth is False)
+                or (text.startswith('len(') and text.endswith(') > 0') and truth is True)
+                or (text.startswith('len(') and text.endswith(') >= 1') and truth is True)
+                or (text.startswith('0 < len(') and truth is True)
+                for text, truth in facts)
+            if not nonempty:
+                ok = False
+        R.check(m, '%s indexes the name list only when it is not empty' % mname,
+                ok, '%s takes the first name of a list that may be empty: an '
+                'IndexError stops the script where the loop should simply not '
+                'run' % mname)
+
+
+@rule('R04.j', ('C04',), 'loop prologue constants: the count starts at zero, '
+      'a single pass has increment zero, a full turn is 360 or 65536',
+      floor=3,
+      decides='`repeat in ...` counts exactly the names pushed; `cycle` '
+              'spreads a full turn; one pass uses the start value')
+def r04j(R):
+    A = R.A
+    lp = A.cls(LOOP, 'LoopParser')
+
+    def moveq_nodes(m, value, dest_member):
+        out = []
+        for call, ops in A.emission_sites(m):
+            for o, a in ops:
+                if o == 'MOVEQ' and len(a) == 2 and A.try_fold(a[0], m, 'x') == value:
+                    d = A.try_fold(a[1], m)
+                    if isinstance(d, EnumVal) and d.member == dest_member:
+                        out += A.node_of_call(m, call)
+        return out
+    # `with v in <lights>`: the counter is cleared before names are counted
+    pw = lp.methods['_pre_loop_with']
+    cfg = A.cfg(pw)
+    zero = moveq_nodes(pw, 0, 'COUNTER')
+    lists = A.calls_nodes(pw, 'LoopParser._pre_loop_list')
+    p = cfg.find_path([cfg.entry], lambda n: n in lists, avoid=zero) if zero else []
+    R.check(pw, 'MOVEQ 0 -> COUNTER before the names are pushed and counted',
+            bool(zero and lists) and p is None,
+            'the name counter is not reset to 0 before the `in` list is '
+            'counted: the loop runs for as many extra passes as an earlier '
+            'loop left in the counter')
+    # one pass: increment 0
+    ci = lp.methods['_calc_incr']
+    R.check(ci, 'count == 1 -> MOVEQ 0 -> INCR', bool(moveq_nodes(ci, 0, 'INCR')),
+            'for a single pass the increment is not set to zero (division by '
+            'count - 1 = 0 otherwise)')
+    # cycle: the full turn
+    cv = lp.methods['_cycle_var_range']
+    pushed = sorted(A.try_fold(c.args[0], cv, 'x') for c in A.calls_in(cv)
+                    if isinstance(c.func, ast.Attribute) and c.func.attr == 'push'
+                    and c.args and isinstance(A.try_fold(c.args[0], cv, 'x'), int))
+    R.check(cv, 'cycle: full turn pushed as %s' % pushed, pushed == [360, 65536],
+            'the full turn a cycle is spread over must be 360 (logical) or '
+            '65536 (raw)')
